@@ -19,6 +19,7 @@ use std::time::Duration;
 /// Marker layout: index * 16 + flags.
 const F_CANCEL: u64 = 1; // the caller will abandon this request
 const F_HOLD: u64 = 2; // the server may hold it for long / never answer
+const F_HOLDALL: u64 = 4; // exhaustion mode: the server sits on it until released
 
 struct C02Script {
     max_outstanding: usize,
@@ -26,6 +27,8 @@ struct C02Script {
     noreply_permille: u64,
     /// Markers of requests the server has decided never to answer.
     held: u64,
+    /// Exhaustion mode: (conn, stream, marker) of requests awaiting release.
+    parked: Vec<(usize, i16, u64)>,
 }
 
 impl Script for C02Script {
@@ -36,6 +39,10 @@ impl Script for C02Script {
             return Reply::Default;
         }
         let m = rq.marker.unwrap_or(0);
+        if m & F_HOLDALL != 0 {
+            self.parked.push((rq.conn, rq.stream, m));
+            return Reply::NoReply;
+        }
         if m & F_HOLD != 0 {
             // The caller abandons this one; the server may sit on it.
             match tape::weighted("c02:hold", &[2, 2, 1]) {
@@ -69,6 +76,7 @@ struct Plan {
     coalescing: u64,
     cancel_permille: u64,
     prepared_permille: u64,
+    exhaust: bool,
 }
 
 pub fn run(req: &RunRequest) -> Value {
@@ -80,6 +88,8 @@ pub fn run(req: &RunRequest) -> Value {
             coalescing: tape::choose("c02:coalescing", 4),
             cancel_permille: [0, 100, 300, 600][tape::choose("c02:cancel_rate", 4) as usize],
             prepared_permille: [0, 300, 1000][tape::choose("c02:prepared_rate", 3) as usize],
+            // Rarely: fill the whole 32768-id space of the connection.
+            exhaust: tape::chance("c02:exhaust", if thorough { 20 } else { 3 }, 1000),
         };
         let mut cluster = Cluster::new("c02");
         cluster.add_node("dc1", "r1", 0, vec![0]);
@@ -116,6 +126,7 @@ async fn main(plan: Plan, slow_permille: u64) -> Outcome {
             slow_permille,
             noreply_permille: 0,
             held: 0,
+            parked: Vec::new(),
         }));
     }
     let cfg = SessionCfg {
@@ -140,6 +151,9 @@ async fn main(plan: Plan, slow_permille: u64) -> Outcome {
         }
     };
 
+    if plan.exhaust {
+        return exhaust(out, session).await;
+    }
     // Plan every request up front (all choices come from the tape).
     struct ReqPlan {
         marker: u64,
@@ -293,5 +307,113 @@ async fn main(plan: Plan, slow_permille: u64) -> Outcome {
         "ok": ok, "err": errs, "cancelled": cancelled, "max_outstanding": max_out.0,
         "server_never_answered": max_out.1,
     });
+    out
+}
+
+/// Stream-id exhaustion: more requests than ids are outstanding at once; the
+/// server then answers a chosen few (block boundaries of the id bitmap
+/// included) and the freed ids - and only those - may be used again.
+async fn exhaust(mut out: Outcome, session: Arc<scylla::client::session::Session>) -> Outcome {
+    const N: usize = 32768 + 300;
+    let mut handles = Vec::with_capacity(N);
+    for i in 0..N {
+        let m = (i as u64 + 10) * 16 + F_HOLDALL;
+        let session = session.clone();
+        handles.push(tokio::spawn(async move {
+            let r = session.query_unpaged(client::q_marker(m), ()).await;
+            (m, r.map_err(|e| client::short_err(&e)))
+        }));
+    }
+    // Let everything reach the node.
+    world::sleep_ns(400 * MS).await;
+    let parked: Vec<(usize, i16, u64)> = {
+        let mut w = world::world();
+        let mut s = w.script.take().unwrap();
+        let p = s.as_any().downcast_mut::<C02Script>().unwrap().parked.clone();
+        w.script = Some(s);
+        p
+    };
+    out.count("exhaustion_outstanding", parked.len() as u64);
+    let distinct: std::collections::BTreeSet<(usize, i16)> = parked.iter().map(|(c, s, _)| (*c, *s)).collect();
+    if distinct.len() != parked.len() {
+        out.violation("c02.stream_id_reuse", "two outstanding requests share a stream id (exhaustion mode)".into());
+    }
+    if parked.len() > 32768 {
+        out.violation("c02.stream_id_range", format!("{} requests outstanding on one connection", parked.len()));
+    }
+    // Release a chosen subset.
+    let mut release: Vec<i16> = vec![0, 1, 63, 64, 65, 127, 128, 4095, 4096, 32703, 32704, 32767];
+    for _ in 0..20 {
+        release.push(tape::choose("c02:release_id", 32768) as i16);
+    }
+    release.sort();
+    release.dedup();
+    let mut released_markers = Vec::new();
+    {
+        let mut w = world::world();
+        let cols = vec![crate::wire::col(client::KS, client::TABLE, "v", crate::wire::CType::BigInt)];
+        for (conn, stream, m) in &parked {
+            if release.contains(stream) {
+                let body = crate::wire::body_rows(&cols, &[vec![crate::wire::Cell::BigInt(*m as i64)]], &Default::default());
+                w.respond(*conn, *stream, crate::wire::OP_RESULT, &body, &Default::default(), 0);
+                released_markers.push(*m);
+            }
+        }
+    }
+    world::sleep_ns(100 * MS).await;
+    // New requests: they can only get the freed ids; the mock's monitor flags any other reuse.
+    let mut fresh = Vec::new();
+    for k in 0..released_markers.len() {
+        let m = (100_000 + k as u64) * 16;
+        let session = session.clone();
+        fresh.push(tokio::spawn(async move {
+            let r = tokio::time::timeout(Duration::from_secs(30), session.query_unpaged(client::q_marker(m), ())).await;
+            (m, r)
+        }));
+    }
+    let mut fresh_ok = 0u64;
+    for h in fresh {
+        if let Ok((m, Ok(Ok(qr)))) = h.await {
+            fresh_ok += 1;
+            if let Err(e) = client::check_marker_rows(qr, m) {
+                out.violation("c02.attribution", e);
+            }
+        }
+    }
+    out.count("exhaustion_fresh_ok", fresh_ok);
+    // Collect: released ones must have succeeded with their own marker; the excess failed.
+    let mut unable = 0u64;
+    let mut done = 0u64;
+    for h in handles {
+        if h.is_finished() {
+            if let Ok((m, r)) = h.await {
+                done += 1;
+                match r {
+                    Ok(qr) => {
+                        if let Err(e) = client::check_marker_rows(qr, m) {
+                            out.violation("c02.attribution", e);
+                        }
+                        if !released_markers.contains(&m) {
+                            out.violation("c02.attribution", format!("request marker {m} completed although the server never answered it"));
+                        }
+                    }
+                    Err(e) => {
+                        if e.contains("stream") {
+                            unable += 1;
+                        }
+                    }
+                }
+            }
+        } else {
+            h.abort();
+        }
+    }
+    out.count("exhaustion_unable_to_alloc", unable);
+    out.count("exhaustion_done", done);
+    if parked.len() == 32768 && unable == 0 {
+        out.violation("c02.exhaustion", "all 32768 ids were outstanding but no excess request failed for lack of a stream id".into());
+    }
+    out.nontrivial = true;
+    out.sample = json!({"mode": "exhaustion", "outstanding": parked.len(), "released": released_markers.len(), "fresh_ok": fresh_ok, "unable_to_alloc": unable});
     out
 }
